@@ -506,7 +506,12 @@ func (pt Perturb) Apply(in []byte) ([]byte, error) {
 			refcodec.FixIPv4Checksum(b[l.q : l.q+l.qihl])
 		}
 	case "q.dst":
-		perturbAddr(b[l.q+dstOff:l.q+dstOff+alen], pt.Op, pt.Other)
+		if pt.Op == "responder" {
+			// the responder reports on a datagram that was addressed to ITSELF (a nearer target of another run)
+			copy(b[l.q+dstOff:l.q+dstOff+alen], b[srcOff:srcOff+alen])
+		} else {
+			perturbAddr(b[l.q+dstOff:l.q+dstOff+alen], pt.Op, pt.Other)
+		}
 		if l.v == 4 {
 			refcodec.FixIPv4Checksum(b[l.q : l.q+l.qihl])
 		}
